@@ -450,3 +450,18 @@ package dialer
 //@   dyncalls noeffect
 //@   modifies *
 //@   ensures !has(globalProxyIpHealthTracker.failures, proxyAddr)
+
+// C16 (a transition is reported for the domain that changed): the network type named for a collection slot is
+// the slot's own - the two TCP-DNS alias slots are TCP with IsDns set and the IP version of THEIR slot.
+//@ func networkTypeForCollectionIndex
+//@   dyncalls noeffect
+//@   modifies *
+//@   ensures idx == IdxDnsTcp4 ==> result != nil && result.L4Proto == consts.L4ProtoStr_TCP && result.IpVersion == consts.IpVersionStr_4 && result.IsDns
+//@   ensures idx == IdxDnsTcp6 ==> result != nil && result.L4Proto == consts.L4ProtoStr_TCP && result.IpVersion == consts.IpVersionStr_6 && result.IsDns
+
+// C20 (muting scopes stay balanced): resetting the proxy state for a reload opens no muting scope of its own -
+// the scope of a reload is opened at admission and closed at release, exactly once each.
+//@ func ResetGlobalProxyStateForReload
+//@   dyncalls noeffect
+//@   modifies *
+//@   ensures calls("resetGlobalProxyState") == 1 && nocalls("BeginReloadProxyFailureSuppression") && nocalls("EndReloadProxyFailureSuppression")
